@@ -94,14 +94,20 @@ def lattice_fixed_point(tier, relu_bound=False):
     bits_r, int_r = range(1, 9), range(-2, 4)
     alphas = (None, F(1), F(2))
     slopes = (F(0), F(1, 4), F(1, 8))
-  for bits, integer, kn, sym, alpha in itertools.product(
-      bits_r, int_r, (True, False), (0, 1), alphas):
+  # formats at the ends of what the constructors accept: a step far below
+  # every epsilon of the library (2^-25, 2^-26), many bits, more integer
+  # bits than bits
+  extremes = [(8, -18, True, 0, None), (26, 0, True, 0, None),
+              (26, 0, False, 1, None), (4, -18, False, 0, F(1)),
+              (4, 9, True, 0, None), (3, 7, False, 0, None)]
+  for bits, integer, kn, sym, alpha in list(itertools.product(
+      bits_r, int_r, (True, False), (0, 1), alphas)) + extremes:
     kw = dict(bits=bits, integer=integer, keep_negative=kn, symmetric=sym,
               alpha=alpha)
     s, txt = codes_quantized_bits(bits, integer, kn, sym, alpha)
     yield "quantized_bits", kw, s, txt, bits
-  for bits, integer, kn, sym, alpha in itertools.product(
-      bits_r, int_r, (True, False), (0, 1), alphas):
+  for bits, integer, kn, sym, alpha in list(itertools.product(
+      bits_r, int_r, (True, False), (0, 1), alphas)) + extremes:
     kw = dict(bits=bits, integer=integer, keep_negative=kn, symmetric=sym,
               alpha=alpha)
     s, txt = codes_quantized_linear(bits, integer, kn, sym, alpha)
